@@ -1156,3 +1156,39 @@ pub struct MSegDesc {
 pub fn m_desc<M>(inner: &mut M) -> MSegDesc {
     MSegDesc { tag: SEG_DESC, inner: unsafe { Box::from_raw(inner as *mut M as *mut Segment) }, pad: [0; SEG_SIZE - 16] }
 }
+
+// ---- FnArg mirrors (padded to the size of FnArg) -------------------------------
+pub const FNARG_SIZE: usize = core::mem::size_of::<FnArg>();
+#[repr(C)]
+pub struct MFnLit {
+    pub tag: u8,
+    pub lit: Literal,
+    pub pad: [u8; FNARG_SIZE - 8 - core::mem::size_of::<Literal>()],
+}
+#[repr(C)]
+pub struct MFnTest {
+    pub tag: u8,
+    pub t: Box<Test>,
+    pub pad: [u8; FNARG_SIZE - 16],
+}
+#[repr(C)]
+pub struct MFnFilter {
+    pub tag: u8,
+    pub f: Filter,
+    pub pad: [u8; FNARG_SIZE - 8 - core::mem::size_of::<Filter>()],
+}
+pub fn mfn_lit(lit: Literal) -> MFnLit {
+    MFnLit { tag: 0, lit, pad: [0; FNARG_SIZE - 8 - core::mem::size_of::<Literal>()] }
+}
+pub fn mfn_test(slot: &mut Test) -> MFnTest {
+    MFnTest { tag: 1, t: tbox(slot), pad: [0; FNARG_SIZE - 16] }
+}
+pub fn mfn_filter(f: Filter) -> MFnFilter {
+    MFnFilter { tag: 2, f, pad: [0; FNARG_SIZE - 8 - core::mem::size_of::<Filter>()] }
+}
+pub fn fnarg_vec<M>(first: &mut M, count: usize) -> Vec<FnArg> {
+    unsafe { Vec::from_raw_parts(first as *mut M as *mut FnArg, count, count) }
+}
+pub fn as_fnarg<M>(m: &M) -> &FnArg {
+    unsafe { &*(m as *const M as *const FnArg) }
+}
